@@ -3,6 +3,7 @@ import W2c2Verif.Model.Instantiate
 import W2c2Verif.Model.InitMem
 import W2c2Verif.Model.NewChild
 import W2c2Verif.Model.InitTables
+import W2c2Verif.Model.FuncExports
 
 /-!
   `I inst key=value …` — post-instantiation state (before the start function) of a module description as
@@ -229,11 +230,25 @@ def inittablesCmd (rest : List String) : Option String := do
   let d : ModDesc := { tableImports := ti, tables, elems }
   some s!"text {" ".intercalate ((W2c2Verif.Model.InitTables.render (kv rest "pretty" = "1") d).map showTTok)}"
 
+/-- `I funcexports exports=<f|m|t|g>:<index>,…` — `<module>FuncExports` as `Model.FuncExports.table` builds it:
+    `size <declared rows> rows <function index of every written row, `-` = NULL row>` or `toolong` -/
+def funcexportsCmd (rest : List String) : Option String := do
+  let es ← (listOf (kv rest "exports") ",").mapM fun t => match t.splitOn ":" with
+    | [k, i] => do
+      let kind ← if k = "f" then some W2c2Verif.Gen.FuncExports.Kind.func else if k = "m" then some .memory
+                 else if k = "t" then some .table else if k = "g" then some .global else none
+      some ({ kind, index := (← i.toNat?), name := [] } : W2c2Verif.Model.FuncExports.Export)
+    | _ => none
+  match W2c2Verif.Model.FuncExports.table es with
+  | some t => some s!"size {W2c2Verif.Model.FuncExports.declaredRows es} rows {dash (",".intercalate (t.map fun | some r => toString r.1 | none => "-"))}"
+  | none => some "toolong"
+
 def instCmd (ws : List String) : Option String :=
   match ws with
   | "I" :: "initmem" :: rest => some ((initmemCmd rest).getD "err parse")
   | "I" :: "child" :: rest => some ((childCmd rest).getD "err parse")
   | "I" :: "inittables" :: rest => some ((inittablesCmd rest).getD "err parse")
+  | "I" :: "funcexports" :: rest => some ((funcexportsCmd rest).getD "err parse")
   | "I" :: "inst" :: rest =>
     let r : Option String := do
       let (d, res, w, mode) ← instReq rest
